@@ -155,7 +155,7 @@ func (r *RefCount[T]) AddRef(cb func(resolved bool, val T, err error)) *Ref[T] {
 	r.refs[nref] = struct{}{}
 	if len(r.refs) == 1 && !r.resolved {
 		r.startResolveLocked()
-	} else if r.resolved {
+	} else if r.resolved && cb != nil {
 		nref.cb(true, r.value, r.valueErr)
 	}
 	r.mtx.Unlock()
